@@ -252,7 +252,8 @@ def _cls(op, err):
 
 
 # ---- facade ------------------------------------------------------------------------------------------------
-F_NAMES = [("emphasis",), ("table",), ("nope",), ("emphasis", "nope"), ("nope", "table"), "strikethrough", ("code",)]
+F_NAMES = [("emphasis",), ("table",), ("nope",), ("emphasis", "nope"), ("nope", "table"), "strikethrough", ("code",),
+           ("marker",), ("marker", "emphasis")]
 BAD_PRESET = {"options": {"maxNesting": 20, "html": False, "linkify": False, "typographer": False, "quotes": "“”‘’",
                           "xhtmlOut": False, "breaks": False, "langPrefix": "language-", "highlight": None},
               "components": {"core": {"rules": ["normalize", "block", "inline", "text_join"]},
@@ -271,10 +272,26 @@ def f_ops(quick):
     if not quick:
         ops.append(("configure", "js-default"))
     ops += [("enter",), ("exit",), ("exit_exc",)]
+    # what a plugin does: register a new rule on one of the rulers (here: an inline rule and its post-processor)
+    ops += [("plugin", "inline"), ("plugin", "inline2"), ("plugin", "block")]
     return ops
 
 
+def _never_inline(state, silent):
+    return False
+
+
+def _never_block(state, startLine, endLine, silent):
+    return False
+
+
+def _noop_state(state):
+    return None
+
+
 class Fac:
+    model_error = None
+
     def __init__(self):
         from markdown_it import MarkdownIt
 
@@ -284,12 +301,49 @@ class Fac:
     def apply(self, op, max_stack):
         md = self.md
         k = op[0]
+        self.model_error = None
         try:
             if k == "render":
                 md.render(PROBE)
+            elif k == "plugin":
+                ruler = {"inline": md.inline.ruler, "inline2": md.inline.ruler2, "block": md.block.ruler}[op[1]]
+                if "marker" in ruler.get_all_rules():
+                    return "skip"
+                if op[1] == "inline":
+                    ruler.push("marker", _never_inline)
+                elif op[1] == "inline2":
+                    ruler.push("marker", _noop_state)
+                else:
+                    ruler.before("paragraph", "marker", _never_block, {"alt": ["paragraph"]})
             elif k in ("enable", "disable"):
                 names = list(op[1]) if isinstance(op[1], tuple) else op[1]
-                getattr(md, k)(names, op[2])
+                # reference model of the facade: a name is known iff some chain has a rule of that name; every
+                # known name is switched in every chain that has it (also when the call then raises for an unknown
+                # one); ValueError iff an unknown name is given and ignoreInvalid is false
+                allr = md.get_all_rules()
+                before = md.get_active_rules()
+                nl = [names] if isinstance(names, str) else list(names)
+                exp = {}
+                for chain in allr:
+                    cur = set(before[chain])
+                    for n in nl:
+                        if n in allr[chain]:
+                            (cur.add if k == "enable" else cur.discard)(n)
+                    exp[chain] = [r for r in allr[chain] if r in cur]
+                unknown = [n for n in nl if not any(n in allr[c] for c in allr)]
+                raised = None
+                try:
+                    getattr(md, k)(names, op[2])
+                except ValueError as e:
+                    raised = e
+                after = md.get_active_rules()
+                if after != exp:
+                    self.model_error = f"{k}({names!r}, {op[2]}): active rules {after} differ from set semantics {exp}"
+                elif bool(raised) != bool(unknown and not op[2]):
+                    self.model_error = (f"{k}({names!r}, {op[2]}) " + ("raised ValueError" if raised else "did not raise")
+                                        + f" although unknown names = {unknown}")
+                if raised:
+                    return "ValueError"
             elif k == "configure":
                 md.configure(BAD_PRESET if op[1] == "BAD" else op[1])
             elif k == "enter":
@@ -371,6 +425,13 @@ def f_invariant(f):
                         f"{ruler.get_active_rules()}")
     fresh = MarkdownIt("commonmark", {k: v for k, v in dict(md.options).items()})
     act = md.get_active_rules()
+    allr = md.get_all_rules()
+    if "marker" in allr["inline"]:
+        fresh.inline.ruler.push("marker", _never_inline)
+    if "marker" in allr["inline2"]:
+        fresh.inline.ruler2.push("marker", _noop_state)
+    if "marker" in allr["block"]:
+        fresh.block.ruler.before("paragraph", "marker", _never_block, {"alt": ["paragraph"]})
     for chain in ("core", "block", "inline"):
         fresh[chain].ruler.enableOnly(act[chain])
     fresh.inline.ruler2.enableOnly(act["inline2"])
@@ -411,6 +472,10 @@ def bfs_facade(max_stack, max_depth, quick, acc, root=None):
             if res == "skip":
                 continue
             trans += 1
+            if f.model_error and reported < 50:
+                reported += 1
+                acc.violation("facade", "facade enable/disable differs from set semantics", {"history": h + [op], "max_stack": max_stack},
+                              f.model_error)
             k = f_canon(f)
             if k in seen:
                 continue
@@ -445,7 +510,7 @@ def bounds(tier):
     return {"ruler_ops": len(OPS), "names": NAMES, "alts": ALTS, "chains": CHAINS, "max_rules": 4 if th else 3,
             "starts": ["empty", START3], "fixpoint": True,
             "facade_ops": len(f_ops(not th)), "facade_reset_rules_nesting": 2 if th else 1,
-            "facade_depth_cap": 6 if th else 5,
+            "facade_depth_cap": 6 if th else 4,
             "facade_split": "one sub-search per first operation (overlapping)" if th else "single search"}
 
 
@@ -456,7 +521,7 @@ def shards(tier):
         for r in range(len(f_ops(False))):
             sh.append(("facade", 2, 6, False, r))
     else:
-        sh.append(("facade", 1, 5, True, None))
+        sh.append(("facade", 1, 4, True, None))
     return sh
 
 
@@ -482,6 +547,11 @@ def check_case(case, acc):
             acc.violation(case["sub"], _cls(op, err), {k: case[k] for k in ("start", "history", "op", "maxr")}, err)
     else:
         h = [tuple(tuple(x) if isinstance(x, list) else x for x in op) for op in case["history"]]
+        g = f_build(h[:-1], case["max_stack"])
+        g.apply(h[-1], case["max_stack"])
+        if g.model_error:
+            acc.violation("facade", "facade enable/disable differs from set semantics", {"history": case["history"], "max_stack": case["max_stack"]},
+                          g.model_error)
         g = f_build(h, case["max_stack"])
         err = f_invariant(g)
         if err:
